@@ -22,6 +22,14 @@ CHECKS = {
             "F-cell fault injection: single-cell alterations (20 wrong values each: neighbours, +-1, 0, 1, 2v, +2^16, +2^32, -v, 12 random) of every enforced cell of sampled honest transitions, judged by the real evaluate_transition (+ b_range aux constraint); enforced-set table written from the design docs",
             "Every mutant of an enforced cell on K honest frames was killed (or is reported); evidence lists killed/escaped per (operation or chiplet row kind, cell, role), free/outside-statement cells, and which constraints ever fired.",
             "single-cell single-transition alterations; enforced-set table (docs) is the trusted base", "DESIGN.md §4 C04"),
+    "C05": ("exploration",
+            "differential runtime monitor: real assemble+execute vs. a reference interpreter of Miden assembly instructions written from the user docs (three-valued: defined / fails-with-kind / undefined); boundary operand grid in every operand position, every immediate form, initial stacks of depth 0..40 with unique deep elements, random instruction sequences; rel + dbg lanes; AIR side monitor on a sample",
+            "Held on K (instruction, operands, stack) cases covering every instruction kind succeeding and every documented failing case failing.",
+            "reference interpreter models/isa.rs (docs) is the trusted base; doc errata are listed in the evidence", "DESIGN.md §4 C05"),
+    "C13": ("exploration",
+            "trace-specification monitor (T-dec): an independent MAST walker driven by the decisions read from the trace (conditions at SPLIT/LOOP/REPEAT, dyn targets) predicts the operation stream, spans decoded from their group values; compared with the decoder's op bits and with execute_iter; NOOP placement, in_span / group_count bookkeeping, final program hash",
+            "Held on K traces covering every block kind, nesting depth up to 8, spans of more than 5 batches and loops with 0..3+ iterations.",
+            "the assembled MAST and its code block table are the specification", "DESIGN.md §4 C13"),
     "C06": ("exploration",
             "reference-model monitor: scripted condition values (0, 1, non-binary at if / loop entry / after an iteration) driven through generated if/while/repeat/exec nestings; executed path read back from a marker log and compared with a reference evaluator; metamorphic pairs repeat.n vs n copies and exec vs inlined body; rel + dbg lanes",
             "Held on K generated control-flow programs covering every decision kind x nesting depth 1..3 x condition class.",
